@@ -284,10 +284,46 @@ func runC03(c *Ctx) {
 				start = e
 			}
 		}
-		mc.SendSegmented(stream, cuts)
+		// every sixth drained session: one Read of the client fails with a temporary error in the middle of a line
+		// (the stream then continues). A client may give the connection up over that - an ending like a read error -
+		// or carry on; one that carries on has lost nothing
+		tempErr := ending == "drain" && idx%6 == 1 && len(lineEnds) > 4
+		if tempErr {
+			mid := lineEnds[len(lineEnds)/2] + 1 + r.Intn(8)
+			if mid >= len(stream)-2 {
+				mid = lineEnds[len(lineEnds)/2-1] + 2
+			}
+			var c1, c2 []int
+			for _, k := range cuts {
+				if k < mid {
+					c1 = append(c1, k)
+				} else if k > mid {
+					c2 = append(c2, k-mid)
+				}
+			}
+			mc.SendSegmented(stream[:mid], c1)
+			mc.SendTempErr()
+			mc.SendSegmented(stream[mid:], c2)
+			crossing = true
+			c.R.Count("sessions_with_a_temporary_read_error_inside_a_line", 1)
+		} else {
+			mc.SendSegmented(stream, cuts)
+		}
 
 		endedBy := ending
-		switch ending {
+		if tempErr {
+			if s.FgMarker(mc) {
+				c.R.Count("temporary_read_error_survived", 1)
+				go s.Conn.Close()
+			} else if mc.Closed() {
+				endedBy = "readerr"
+				c.R.Count("temporary_read_error_ended_the_connection", 1)
+			} else {
+				c.R.Inconcl(fmt.Sprintf("%s: neither the marker nor the end of the connection after a temporary read error", Case("sess", idx)))
+				return
+			}
+		}
+		switch map[bool]string{true: "-", false: ending}[tempErr] {
 		case "drain":
 			if !s.FgMarker(mc) {
 				ds := rig.ProveDead(WaitShort)
